@@ -927,6 +927,19 @@ func (c *fnCtx) callEvents(call *ast.CallExpr) alts {
 			}
 		}
 	}
+	// a call through a local variable whose only definition is a function literal (send := func(){…};
+	// send()): the literal's body runs here
+	if lv, isVar := callee.(*types.Var); isVar && !lv.IsField() && !isParamOf(c.fn, lv) {
+		if ds, ok := c.fn.Defs().singleDef(lv); ok && ds.kind == "assign" && !ds.multi && ds.rhs != nil {
+			if lit, isLit := ast.Unparen(ds.rhs).(*ast.FuncLit); isLit {
+				if lf := c.litFunc(lit); lf != nil {
+					if sub := c.inlineLitFunc(lit, lf, callee, call); sub != nil {
+						return seq(seq(a, one(ce)), sub)
+					}
+				}
+			}
+		}
+	}
 	// glue that takes function values is looked into like any other glue; the calls through its
 	// function-typed parameters are resolved inside (above)
 	if len(fargs) > 0 {
